@@ -172,14 +172,15 @@ def call_impl(c, H):
         G = xgi.to_encapsulation_dag(H, subset_types=c["subset_types"])
         bad = [n for n, d in G.nodes(data=True) if d] + [a for a, b, d in G.edges(data=True) if d]
         return {"nodes": sset(G.nodes) + ([{"attrs-on": sset(bad)}] if bad else []),
-                "edges": sort_rows([[enc_id(a), enc_id(b)] for a, b in G.edges], 2), "digraph": G.is_directed() and not G.is_multigraph()}
+                "edges": sort_rows([[enc_id(a), enc_id(b)] for a, b in G.edges], 2), "digraph": G.is_directed() and not G.is_multigraph(),
+                "order": [enc_id(n) for n in G.nodes]}
     raise Infra(f"unknown function {f}")
 
 
 def strip_flags(v):
     """graph-kind flags are checked by the predicate, not sent by the model"""
     if isinstance(v, dict):
-        return {k: x for k, x in v.items() if k not in ("directed", "digraph")}
+        return {k: x for k, x in v.items() if k not in ("directed", "digraph", "order")}
     return v
 
 
@@ -253,29 +254,21 @@ def strict_subset_links(edges, kind):
     return out
 
 
-def sequential_outcomes(edges, cap=5040):
-    """every link set the in-place `empirical_subsets_filter` of the unfixed code can return, over the orders in
-    which the DAG vertices may be visited (all permutations of the linked vertices; sampled beyond `cap`)"""
-    import random as _r
+def sequential_filter(edges, order):
+    """what the in-place `empirical_subsets_filter` of the unfixed code returns when it visits the DAG vertices
+    in `order` (the vertex order of the returned DiGraph is that visiting order)"""
     sets = {e: frozenset(ms) for e, ms in edges}
-    allp = strict_subset_links(edges, "all")
-    verts = sorted({x for l in allp for x in l}, key=repr)
-    n_perm = math.factorial(len(verts))
-    perms = itertools.permutations(verts) if n_perm <= cap else (_r.Random(7).sample(verts, len(verts)) for _ in range(cap))
-    outs = set()
-    for order in perms:
-        links = set(allp)
-        for x in order:
-            preds = [p for p, q in links if q == x]
-            if preds:
-                mn = min(len(sets[p]) for p in preds)
-                links -= {(p, x) for p in preds if len(sets[p]) != mn}
-            succ = [q for p, q in links if p == x]
-            if succ:
-                mx = max(len(sets[q]) for q in succ)
-                links -= {(x, q) for q in succ if len(sets[q]) != mx}
-        outs.add(frozenset(links))
-    return outs
+    links = set(strict_subset_links(edges, "all"))
+    for x in order:
+        preds = [p for p, q in links if q == x]
+        if preds:
+            mn = min(len(sets[p]) for p in preds)
+            links -= {(p, x) for p in preds if len(sets[p]) != mn}
+        succ = [q for p, q in links if p == x]
+        if succ:
+            mx = max(len(sets[q]) for q in succ)
+            links -= {(x, q) for q in succ if len(sets[q]) != mx}
+    return frozenset(links)
 
 
 def pred(c, r, nodes, edges):
@@ -409,10 +402,11 @@ def pred(c, r, nodes, edges):
             if v["edges"] != exp:
                 cls = f"{kind}-links-differ-from-definition"
                 if kind == "empirical":
-                    # witness pattern of the known defect: the answer is what the in-place filter yields for some
-                    # visiting order of the vertices; any other wrong answer is a different finding
+                    # witness pattern of the known defect: the answer is what filtering in place yields for the
+                    # visiting order the returned DiGraph records; any other wrong answer is a different finding
                     got = frozenset((dv(a), dv(b)) for a, b in v["edges"])
-                    if got in sequential_outcomes(edges):
+                    order = [dv(x) for x in v.get("order", [])]
+                    if sorted(map(repr, order)) == sorted(repr(e) for e, _ in edges) and got == sequential_filter(edges, order):
                         cls = "empirical-links-depend-on-visit-order"
                 fails.append((cls, f"{v['edges']} vs prescribed {exp}"))
     return fails
@@ -653,7 +647,7 @@ def run(ctx):
                 "missing node / invalid option requests; non-trivial = distinct (request, result) on a hypergraph with an edge of >= 2 members")
     cases = load_corpus()
     ctx.stats["corpus_cases"] = len(cases)
-    n_h = ctx.n(1200, 12000)
+    n_h = ctx.n(1000, 12000)
     for _ in range(n_h):
         nodes, edges = gen_any(rng)
         ctx.stats["hypergraphs"] += 1
